@@ -1,4 +1,12 @@
-"""Sidecar contracts: RamseyWitnessFormula (C02) over the mapping interface and the edge view of the graph.
+"""Sidecar contracts: SubgraphFormula and RamseyWitnessFormula (C02) over the mapping interface and the edge view of the graph.
+
+SubgraphFormula - PROVED for all graphs G, H and all flag values, for an arbitrary assignment a: a satisfies the formula iff
+  * s is a complete, functional, injective [and, with symbreak, non-decreasing] mapping V(H) -> V(G), and
+  * for all vertices i1 < i2 of H and j1 < j2 of G whose adjacency is NOT consistent - i.e. not (G-edge == H-edge), and not
+    (G-edge present while induced is off) - s does not put (i1, i2) on (j1, j2) [nor, without symbreak, on (j2, j1)]
+- so every edge of H lands on an edge of G (and every non-edge on a non-edge when induced): an (induced) copy of H in G.
+
+RamseyWitnessFormula:
 
 PROVED for every graph G, every k and both values of `symbreak`, for an arbitrary assignment a: a satisfies the formula iff
   * s is a complete, functional, injective mapping [k] -> V(G)                      (k distinct vertices), and
@@ -116,3 +124,49 @@ CONTRACTS = {
         ],
     },
 }
+
+
+# ---- SubgraphFormula ----------------------------------------------------------------------------------------------------------
+CLASSMODELS['DictS'] = {'file': V_, 'real': 'BaseVariableGroup', 'fields': {'gid': 'int', 'n': 'int', 'm': 'int'}}
+CONS = '((gadj(G.gid, j1, j2) == gadj(H.gid, i1, i2)) or (gadj(G.gid, j1, j2) and not induced))'
+SROW = '(implies(not {c}, not ({a} and {b}) and implies(not symbreak, not ({x} and {y}))))'.format(
+    c=CONS, a=sv('i1', 'j1'), b=sv('i2', 'j2'), x=sv('i1', 'j2'), y=sv('i2', 'j1'))
+
+
+def srow(i1, i2, j1, j2):
+    return SROW.replace('i1', '(' + i1 + ')').replace('i2', '(' + i2 + ')').replace('j1', '(' + j1 + ')').replace('j2', '(' + j2 + ')')
+
+
+KEEP2 = ['F._numvar == k * N', 'k >= 0', 'N >= 0']
+E1 = 'forall(lambda i1, i2, j1, j2: implies(1 <= i1 and i1 <= _a and i1 < i2 and i2 <= k and 1 <= j1 and j1 < j2 and j2 <= N, {}))'.format(srow('i1', 'i2', 'j1', 'j2'))
+E2 = 'forall(lambda i2, j1, j2: implies(_a + 1 < i2 and i2 <= _a + 1 + _b and 1 <= j1 and j1 < j2 and j2 <= N, {}))'.format(srow('_a + 1', 'i2', 'j1', 'j2'))
+E3 = 'forall(lambda j1, j2: implies(1 <= j1 and j1 <= _c and j1 < j2 and j2 <= N, {}))'.format(srow('_a + 1', '_a + 2 + _b', 'j1', 'j2'))
+E4 = 'forall(lambda j2: implies(_c + 1 < j2 and j2 <= _c + 1 + _it, {}))'.format(srow('_a + 1', '_a + 2 + _b', '_c + 1', 'j2'))
+
+CONTRACTS.update({
+    (F_, 'FormulaS.force_nondecreasing_mapping'): force('nondecreasing'),
+    (V_, 'MapS.to_dict'): {'assumed': 'to_dict() maps every index (u, v) to the identifier of s[u,v] (C11)', 'params': {}, 'returns': 'obj:DictS',
+                           'ensures': ['result.gid == self.gid', 'result.n == self.n', 'result.m == self.m']},
+    (V_, 'DictS.__getitem__'): {'assumed': 'the dictionary of a mapping group: D[u, v] is the variable s[u,v] (C11)', 'params': {'choices': 'tuple:int,int'},
+                                'requires': ['1 <= choices[0] and choices[0] <= self.n', '1 <= choices[1] and choices[1] <= self.m'],
+                                'returns_expr': 'mvar(self.gid, choices[0], choices[1])'},
+    (S, 'SubgraphFormula'): {
+        'property': ['C02', 'C08', 'C10'],
+        'params': {'G': 'obj:GraphS', 'H': 'obj:GraphS', 'induced': 'bool', 'symbreak': 'bool', 'formula_class': 'class:FormulaS'},
+        'ghost_params': {'a': 'asg'},
+        'raises': {},
+        'loops': {0: {'nest': [
+            dict(FR, counter='_a', ghost_at_entry={'S0': 'F.store'}, inv=KEEP2 + [acc(E1)]),
+            dict(FR, counter='_b', inv=KEEP2 + [acc('({} and {})'.format(E1, E2))]),
+            dict(FR, counter='_c', inv=KEEP2 + [acc('({} and {} and {})'.format(E1, E2, E3))]),
+            dict(FR, inv=KEEP2 + [acc('({} and {} and {} and {})'.format(E1, E2, E3, E4))]),
+        ]}},
+        'ensures': [
+            'sat(a, result.store) == (m_complete(a, {m}.gid) and m_functional(a, {m}.gid) and m_injective(a, {m}.gid) and '
+            'implies(symbreak, m_nondecreasing(a, {m}.gid)) and '
+            'forall(lambda i1, i2, j1, j2: implies(1 <= i1 and i1 < i2 and i2 <= H.n and 1 <= j1 and j1 < j2 and j2 <= G.n, {row})))'.format(m=M, row=SROW),
+            'result._numvar == H.n * G.n',
+            'result.cls == formula_class',
+        ],
+    },
+})
